@@ -1499,12 +1499,21 @@ func (c *Ctx) c07ParamDispatch() {
 		}
 		for _, b := range fn.Blocks {
 			for _, ins := range b.Instrs {
-				st, isSt := ins.(*ssa.Store)
-				if !isSt {
-					continue
+				// the field is chosen by a store into it, or by handing its address back (a lookup method `wordField(id)`
+				// whose caller stores through the pointer)
+				var fa *ssa.FieldAddr
+				var st ssa.Instruction
+				switch x := ins.(type) {
+				case *ssa.Store:
+					fa, _ = x.Addr.(*ssa.FieldAddr)
+					st = x
+				case *ssa.Return:
+					if len(x.Results) == 1 {
+						fa, _ = x.Results[0].(*ssa.FieldAddr)
+						st = x
+					}
 				}
-				fa, isFA := st.Addr.(*ssa.FieldAddr)
-				if !isFA || fa.X != ssa.Value(fn.Params[0]) {
+				if fa == nil || fa.X != ssa.Value(fn.Params[0]) {
 					continue
 				}
 				_, fname, _ := fieldNameOfAddr(fa)
